@@ -101,6 +101,15 @@ def case_read_csv(ctx, inp):
         if dates:
             kw["parse_dates"] = dates
         kw.update(_dtype_kw(inp))
+        if inp.get("names"):
+            # rename the columns while skipping the header line of the file
+            new = ["n%d" % i for i in range(len(inp["cols"]))]
+            kw["names"], kw["header"] = new, 0
+            ren = dict(zip([c[0] for c in inp["cols"]], new))
+            if "parse_dates" in kw:
+                kw["parse_dates"] = [ren[c] for c in kw["parse_dates"]]
+            if "dtype" in kw:
+                kw["dtype"] = {ren[c]: t for c, t in kw["dtype"].items()}
         # "\r\n" files: pandas accepts only 1-byte `lineterminator`; both readers split on "\n" and strip the "\r"
         exp = pd.read_csv(p, **kw)
         bs = inp["blocksize"]
@@ -121,7 +130,7 @@ def case_read_csv(ctx, inp):
     ctx.branch("read_csv-" + ("whole" if not bs else "bs<=8" if bs <= 8 else "bs<=64" if bs <= 64 else "bs>64")
                + ("-quoted-nl" if has_nl else ""))
     # block model: number of partitions and rows per partition (line level; only meaningful without quoted newlines)
-    if not has_nl and inp.get("lt", "\n") == "\n" and len(data) < 4000:
+    if not has_nl and inp.get("lt", "\n") == "\n" and len(data) < 4000 and not inp.get("names"):
         model = ctx.lean(Sym("csv-parts"), list(data), Sym("none") if not bs else bs)
         if model[0] == "ok":
             ctx.eq("rows per partition (Lean block model vs read_csv)", [len(p) for p in model[1]], [len(p) for p in parts])
@@ -210,6 +219,9 @@ def generate(ctx):
         n = rng.randint(0, 25)
         yield "read_csv", {"n": n, "cols": _rand_cols(rng), "blocksize": rng.choice([None, 1, 2, 3, 5, 7, 9, 16, 31, 64, 200, 1000]),
                            "lt": rng.choice(["\n", "\n", "\n", "\r\n"])}
+    for _ in range(ctx.n(50, 500)):
+        n = rng.randint(1, 20)
+        yield "read_csv", {"n": n, "cols": _rand_cols(rng), "blocksize": rng.choice([None, 3, 7, 16, 40, 200]), "names": True}
     for _ in range(ctx.n(40, 400)):
         n = rng.randint(1, 12)
         yield "read_csv", {"n": n, "cols": _rand_cols(rng, nl=True), "blocksize": rng.choice([None, 4, 9, 17, 40, 10000])}
